@@ -117,7 +117,7 @@ func WellFormed(b *hx.Built, ns xsel.NodeSet, mayDescend bool, id string) {
 
 // RunOrder: overlap-producing paths and unions from every context node.
 func RunOrder() {
-	b := hx.Gen(genOpts())
+	b := hx.GenOrSkeleton(genOpts())
 	nd.Assert(b.TieOK, "store-mirrors-script")
 	ctx := nd.Choice(len(b.Doc.Nodes))
 	cur := b.Cursors[ctx]
